@@ -129,6 +129,9 @@ struct TokFtor
     Tok operator()(std::string_view sv) const
     {
         simrt::termf(term, sv.data(), int64_t(sv.size()));
+        // term functors allocate like user code does (a std::string of the lexeme, a number conversion...): the
+        // allocator seam can make exactly this allocation fail, i.e. make the term functor throw
+        delete[] new char[1 + (sv.size() & 7)];
         return Tok{ sv.data(), sv.size() };
     }
 };
@@ -221,6 +224,13 @@ struct PNode
     uint32_t nkids = 0;
     uint64_t digest = 0xdefa017ull;   // == empty_default_digest()
     uint64_t sdigest = 0xdefa017ull;
+    // copies are observable (counted by the ledger) although the type stays trivially destructible: a fixed-capacity
+    // stack that copy-assigns where it should move is seen
+    PNode() = default;
+    PNode(const PNode& o) : rule(o.rule), nkids(o.nkids), digest(o.digest), sdigest(o.sdigest) { simrt::trivial_copy(); }
+    PNode& operator=(const PNode& o) { rule = o.rule; nkids = o.nkids; digest = o.digest; sdigest = o.sdigest; simrt::trivial_copy(); return *this; }
+    PNode(PNode&& o) noexcept : rule(o.rule), nkids(o.nkids), digest(o.digest), sdigest(o.sdigest) {}
+    PNode& operator=(PNode&& o) noexcept { rule = o.rule; nkids = o.nkids; digest = o.digest; sdigest = o.sdigest; return *this; }
     static constexpr bool keeps_text = false;
     static constexpr bool is_ledgered = false;
     uint64_t get_digest() const { return digest; }
